@@ -684,7 +684,12 @@ PROPS = {
         trace=CONC_TRACE,
         work=[dict(driver="sched", args=["--all"], quick=2, thorough=12, final_rc3=True),
               # spec -> impl: behaviours of RainConc generated by TLC, replayed thread step by step
-              dict(driver="sched", gen="tlc", args=[], quick=150, thorough=4000, final_rc3=True)]),
+              dict(driver="sched", gen="tlc", args=[], quick=150, thorough=4000, final_rc3=True),
+              # free-running: six writers, each reading back every key right after writing it
+              # (read-your-write while other writers insert into the same memtable and the worker
+              # flushes and compacts; 4 KiB memtable) - what exposed the skip-list race (defect 17)
+              dict(driver="live", args=["--ops", "500", "--own-reads"], quick=6, thorough=96,
+                   final_rc3=True)]),
     "C06": dict(
         design=[(CONC, ["MC_RainConc_small.cfg"], ["MC_RainConc_small.cfg"])],
         switches=[("Bug_PublishEarly", CONC, "MC_RainConc_small.cfg", None),
@@ -1177,7 +1182,8 @@ def replay(path):
         return 1 if bad else 0
     elif rp["driver"] == "live":
         r = sh([BIN, "live", "--seed", str(rp["seed"]), "--runs", "1", "--ops", str(rp.get("ops", 150)),
-                "--jitter", str(rp.get("jitter", 0)), "--out", outdir], timeout=900)
+                "--jitter", str(rp.get("jitter", 0)), "--out", outdir]
+               + (["--own-reads"] if rp.get("own") else []), timeout=1800)
     else:
         r = sh([BIN, rp["driver"], "--replay", path, "--out", outdir], timeout=900)
     log(r.stdout[-2000:])
